@@ -106,6 +106,7 @@ let run_query ix = function
       of_api (fun ((((tfs, dfs), dls), total), n) -> L [of_nl tfs; of_nl dfs; of_nl dls; of_n total; of_n n]) (M.score_args ix (nl ts))
   | L [A "tfr"; t; lo; hi] -> of_api of_nl (M.termfreqs_range ix (to_n t) (to_option to_n lo) (to_option to_n hi))
   | L [A "phraser"; ts; lo; hi] -> of_api of_nl (M.phrase_freqs_range ix (nl ts) (to_option to_n lo) (to_option to_n hi))
+  | L [A "slop"; ts; sl] -> of_api of_nl (M.slop_freqs ix (nl ts) (to_n sl))
   | L [A "lens"] -> L [A "ok"; of_nl (M.doclengths ix)]
   | L [A "n"] -> L [A "ok"; of_n (M.corpus_size ix)]
   | L [A "total"] -> L [A "ok"; of_n (M.total_len ix)]
@@ -121,6 +122,7 @@ let spec_query docs = function
   | L [A "phraser"; ts; lo; hi] ->
       if M.aligned (to_option to_n lo) (to_option to_n hi) then L [A "ok"; of_nl (M.phrase_range_spec docs (nl ts) (to_option to_n lo) (to_option to_n hi))]
       else L [A "exc"; A "ValueError"]
+  | L [A "slop"; ts; sl] -> L [A "ok"; of_list (fun (o, (c, w)) -> L [of_n o; of_bool c; of_bool w]) (M.slop_spec docs (nl ts) (to_n sl))]
   | L [A "lens"] -> L [A "ok"; of_nl (M.lens_spec docs)]
   | L [A "n"] -> L [A "ok"; A (string_of_int (List.length docs))]
   | L [A "total"] -> L [A "ok"; of_n (M.total_spec docs)]
